@@ -27,7 +27,7 @@ PROBES = {
             'assign-scalar', 'assign-list', 'random-case-name', 'quiet-point-checked', 'segmented-delivery'],
     'C11': ['defaults-absent', 'defaults-empty', 'defaults-many', 'option-unset-with-default', 'option-unset-no-default',
             'conf-changed-0-values', 'conf-changed-1-value', 'conf-changed-many-values', 'read-edit-save-after-conf-changed',
-            'port-option-multi-valued', 'port-option-unset', 'linelist-multi', 'commalist', 'random-case-name',
+            'port-option-multi-valued', 'port-option-unset', 'linelist-multi', 'conf-changed-during-bootstrap', 'commalist', 'random-case-name',
             'quiet-point-checked', 'segmented-delivery'],
 }
 
@@ -287,6 +287,9 @@ class ConfigRun(object):
     # ------------------------------------------------------------------ workload
     def actions(self):
         if not self.boot:
+            # another controller may already be active while the view is still being built
+            if self.boot is None and self.prop == 'C11' and 'CONF_CHANGED' in self.tor.subscribed and self.early_changes_left > 0:
+                return [(1, 'second-controller-early', self.op_second_controller_early)]
             return []
         acts = []
         if self.ops_left > 0:
@@ -496,6 +499,18 @@ class ConfigRun(object):
         else:
             self.had_reject = True
 
+    def op_second_controller_early(self):
+        self.early_changes_left -= 1
+        if not self.sim.gate('conf-changed-during-bootstrap'):
+            return
+        self.changes_left += 1
+        self.sim.probe('conf-changed-during-bootstrap')
+        before = dict((o.name, list(o.co.values) if o.co.values is not None else None) for o in self.order)
+        self.op_second_controller()
+        for o in self.order:
+            if before[o.name] != o.co.values:
+                o.early = True
+
     def op_second_controller(self):
         """another controller changes Tor's configuration; Tor announces it"""
         ch, sim = self.ch, self.sim
@@ -555,6 +570,10 @@ class ConfigRun(object):
             if g != want:
                 nested = any(isinstance(x, list) for x in got)
                 sig = '.list-value-mismatch'
+                if getattr(o, 'early', False):
+                    sim.fail(prop + '.stale-bootstrap-value-after-early-conf-changed',
+                             'option %s was changed by another controller while the view was being built; it reads %r, Tor has %r' % (
+                                 o.name, got, tor_vals))
                 if nested:
                     sig = '.multi-valued-option-nested-list'
                 elif want == [] and g == ['DEFAULT']:
@@ -571,6 +590,10 @@ class ConfigRun(object):
         else:
             okv = got == want and (type(got) is type(want) or isinstance(want, float))
         if not okv:
+            if getattr(o, 'early', False):
+                sim.fail(prop + '.stale-bootstrap-value-after-early-conf-changed',
+                         'option %s was changed by another controller while the view was being built; it reads %r, Tor has %r' % (
+                             o.name, got, tor_vals))
             sim.fail(prop + '.scalar-value-mismatch', 'option %s (%s) reads %r, Tor has %r (expected %r)' % (o.name, typ, got, tor_vals, want))
 
     def check_store(self):
@@ -585,6 +608,7 @@ class ConfigRun(object):
         self.had_reject = False
         self.edit_during_flight_seen = False
         self.pending_echo = []
+        self.early_changes_left = ch.draw(3, 'early')
         self.build_tor()
         self.ops_left = 2 + ch.draw(self.P.get('max_ops', 30), 'nops') if self.prop == 'C10' else ch.draw(10, 'nops11')
         self.changes_left = ch.draw(4, 'nchg10') if self.prop == 'C10' else 1 + ch.draw(self.P.get('max_changes', 10), 'nchg11')
